@@ -324,39 +324,74 @@ func minus(a, b []string) []string {
 	return out
 }
 
-// emptyAtPersistPoint replays the history on the model alone and reports
-// whether at some persist point (persist event, close+reopen, or the final
-// close) the schema chain had no live item (no table and no view) resp. the
-// info chain had no live item (no table) although something had existed before.
+// emptyAtPersistPoint replays the history on the model alone (with the
+// predicted persistence shape) and reports whether at some persist point
+// (persist event, close+reopen, or the final close) a dirty chain was
+// FLATTENED (all its chunks merged: nmerge == number of chunks > 0) while it
+// had no live item left: the schema chain (no table and no view) resp. the
+// info chain (no table). That is the trigger of the empty-flatten defect.
 func emptyAtPersistPoint(path []drive.Event) (schemaEmpty, infoEmpty bool) {
 	m := dbmodel.New()
-	hadSchema, hadInfo := false, false
+	abs := ""
 	point := func() {
-		if hadSchema && len(m.Tables) == 0 && len(m.Views) == 0 {
+		var a absState
+		if abs != "" {
+			json.Unmarshal([]byte(abs), &a)
+		}
+		if a.SDirty && a.SLen > 0 && nmerge(a.SLen, a.SClock) == a.SLen && len(m.Tables) == 0 && len(m.Views) == 0 {
 			schemaEmpty = true
 		}
-		if hadInfo && len(m.Tables) == 0 {
+		if a.IDirty && a.ILen > 0 && nmerge(a.ILen, a.IClock) == a.ILen && len(m.Tables) == 0 {
 			infoEmpty = true
 		}
 	}
 	for _, ev := range drive.Flatten(path) {
+		before := m
 		switch ev.Kind {
 		case "admin":
-			m.Admin(*ev.Req)
+			c := m.Clone()
+			if c.Admin(*ev.Req) == nil && c.Canon() != m.Canon() {
+				m = c
+			}
 		case "tx":
-			m.Tx(ev.Ops)
+			c := m.Clone()
+			if c.Tx(ev.Ops) == nil && c.Canon() != m.Canon() {
+				m = c
+			}
 		case "persist", "reopen":
 			point()
 		}
-		if len(m.Tables) > 0 {
-			hadInfo = true
-		}
-		if len(m.Tables) > 0 || len(m.Views) > 0 {
-			hadSchema = true
-		}
+		abs = absStep(abs, ev, before, m)
 	}
 	point() // final close
 	return
+}
+
+// predictedShape replays the history through absStep (coverage sanity only).
+func predictedShape(path []drive.Event) absState {
+	m := dbmodel.New()
+	abs := ""
+	for _, ev := range drive.Flatten(path) {
+		before := m
+		switch ev.Kind {
+		case "admin":
+			c := m.Clone()
+			if c.Admin(*ev.Req) == nil && c.Canon() != m.Canon() {
+				m = c
+			}
+		case "tx":
+			c := m.Clone()
+			if c.Tx(ev.Ops) == nil && c.Canon() != m.Canon() {
+				m = c
+			}
+		}
+		abs = absStep(abs, ev, before, m)
+	}
+	var a absState
+	if abs != "" {
+		json.Unmarshal([]byte(abs), &a)
+	}
+	return a
 }
 
 // builtIndexTables replays the history on the model alone and returns the
@@ -494,6 +529,14 @@ func judge(c *lib.Ctx) func(s *drive.Sys, path []drive.Event, changed bool) []dr
 			return vs
 		}
 		recordShape(c, s.DB)
+		if !s.Tainted {
+			so, _, sc, io, _, ic := s.DB.GetState().Meta.VerifChainShape()
+			if p := predictedShape(s.Log); p.SLen != so || p.SClock != sc || p.ILen != io || p.IClock != ic {
+				c.Count("shape_prediction_differs_from_real_chain_shape", 1) // affects deduplication only
+			} else {
+				c.Count("shape_prediction_confirmed", 1)
+			}
+		}
 		if m := s.Apply(drive.Reopen()); m != "" {
 			return append(vs, drive.Violation{Msg: where + ": " + m})
 		}
